@@ -59,6 +59,15 @@ Theorem C11_byte_is_its_pixels : forall t alt buf k q,
   exists i, 0 <= i < pixels_total t (buf_len buf) /\ owns t alt i k q.
 Proof. exact byte_is_its_pixels. Qed.
 
+(* `owns` really is the set of bits a pixel is read from: two buffers that agree on the bits pixel i owns load the
+   same value at i (together with the closed forms below this ties `owns` to the documented layout) *)
+Theorem C11_load_depends_on_owned_bits : forall t (alt : order) b1 b2 i,
+  bytes_ok b1 -> bytes_ok b2 -> buf_len b1 = buf_len b2 -> len_ok b1 ->
+  0 <= i < pixels_total t (buf_len b1) ->
+  (forall k q, 0 <= q < 8 -> owns t alt i k q -> Z.testbit (byte_at b1 k) q = Z.testbit (byte_at b2 k) q) ->
+  load t alt b1 i = load t alt b2 i.
+Proof. exact load_depends_on_owned_bits. Qed.
+
 (* beyond the buffer: None / Err and no byte changes - for every non-negative index *)
 Theorem C11_load_oob : forall t alt buf i,
   0 <= i -> pixels_total t (buf_len buf) <= i -> load t alt buf i = None.
